@@ -128,7 +128,7 @@ void h_rules (void)
   tgt.name = "t";
   /* pre-existing rule sets (fill level PRE_RS) for the sys set with arbitrary flags */
   for (int i = 0; i < PRE_RS; i++) { OrcRuleSet *r = orc_rule_set_new (orc_opcode_set_get ("sys"), &tgt, nondet_uint ()); if (nondet_bool ()) orc_rule_register (r, "addb", emitA, 0); }
-  OrcRuleSet *rs[NRS]; unsigned req[NRS]; int major[NRS]; int has[NRS];
+  OrcRuleSet *rs[NRS]; unsigned req[NRS]; int major[NRS]; int has[NRS]; int slot_other[NRS];
   int which = nondet_int (); V_ASSUME (which >= 0 && which < NOPS);       /* opcode (index) we will query */
   int qset = QSET;           /* its set: 0 = sys (configuration: allocation sizes depend on it) */
   static const int majors_cfg[] = { MAJORS };
@@ -143,6 +143,15 @@ void h_rules (void)
       const char *nm = qset == 0 ? sys_ops[which].name : ext_ops[qset - 1][which].name;
       /* names inside one set may collide: register by name hits the first slot with that name */
       orc_rule_register (rs[i], nm, i & 1 ? emitA : emitB, (void *) (size_t) (i + 1));
+    }
+    slot_other[i] = -1;
+    if (has[i] && major[i] != qset) {
+      /* a rule sitting at the same index in a rule set that belongs to *another* opcode set must never be returned */
+      int n2 = major[i] == 0 ? 3 : NOPS;
+      int w2 = which < n2 ? which : n2 - 1;
+      const char *nm2 = major[i] == 0 ? sys_ops[w2].name : ext_ops[major[i] - 1][w2].name;
+      orc_rule_register (rs[i], nm2, emitA, (void *) (size_t) 99);
+      slot_other[i] = orc_opcode_set_find_by_name (orc_opcode_set_get_nth (major[i]), nm2);
     }
   }
   OrcStaticOpcode *op = qset == 0 ? &sys_ops[which] : &ext_ops[qset - 1][which];
@@ -169,6 +178,8 @@ void h_rules (void)
   for (int i = 0; i < NRS; i++) {
     int n = major[i] == 0 ? 3 : NOPS;
     for (int k = 0; k < 3; k++) { if (k >= n) break;
+      if (has[i] && major[i] != qset) { if (k == slot_other[i]) V_ASSERT (rs[i]->rules[k].emit == emitA && rs[i]->rules[k].emit_user == (void *) (size_t) 99, "rule of another opcode set sits in its own slot");
+                                          else V_ASSERT (rs[i]->rules[k].emit == 0 && rs[i]->rules[k].emit_user == 0, "other rule slots stay empty"); continue; }
       if (!(has[i] && major[i] == qset && k == slot)) V_ASSERT (rs[i]->rules[k].emit == 0 && rs[i]->rules[k].emit_user == 0, "other rule slots stay empty");
       else V_ASSERT (rs[i]->rules[k].emit == (i & 1 ? emitA : emitB) && rs[i]->rules[k].emit_user == (void *) (size_t) (i + 1), "registered slot holds emitter and user data");
     }
